@@ -7,6 +7,7 @@ import CattrsModel.Passthrough.Driver
 import CattrsModel.Preconf.Driver
 import CattrsModel.FieldConv.Driver
 import CattrsModel.GenHook.Driver
+import CattrsModel.Generics.Driver
 open CattrsModel
 
 structure DState where
@@ -22,6 +23,7 @@ def stateless (op : String) (args : List Sexp) : Option Sexp :=
     |>.orElse (fun _ => Preconf.preconfHandle op args)
     |>.orElse (fun _ => FieldConv.fieldConvHandle op args)
     |>.orElse (fun _ => GenHook.genHookHandle op args)
+    |>.orElse (fun _ => Generics.genericsHandle op args)
 
 def step (st : DState) (line : String) : DState × String :=
   match Sexp.parseLine line with
